@@ -22,7 +22,7 @@ TECHNIQUE = 'inverse-physical-law oracle over random parameter sets, per-branch 
 RULE = ('parameter sets over physical ranges x 25 points each; non-trivial = set exercising a non-default branch (lead != 0, T < 0, initial '
         'voltage != 0, gain != 1, voltage excitation); distinct = rounded parameter tuple')
 ASSUMPTIONS = ['tolerance 1e-6 relative with a 1e-9 absolute floor near zero']
-REQUIRED = ['rtd_points', 'rtd_branch_point_sets', 'rtd_quartic_points', 'thermistor_points', 'strain_points', 'poly_points', 'table_points', 'through_channel',
+REQUIRED = ['purity_calls', 'rtd_points', 'rtd_branch_point_sets', 'rtd_quartic_points', 'thermistor_points', 'strain_points', 'poly_points', 'table_points', 'through_channel',
             'branch:rtd:2-wire', 'branch:rtd:3-wire', 'branch:rtd:4-wire', 'branch:thermistor:current', 'branch:thermistor:voltage'] + \
            ['branch:strain:%d' % c for c in (10183, 10184, 10185, 10188, 10189, 10271, 10272)]
 N = {'quick': 9600, 'thorough': 100000}
@@ -38,6 +38,21 @@ def gen_cases(tier, seed):
 def run_case(case, ctx):
     rng = random.Random('c17/%s/%d' % (case['k'], case['s']))
     {'rtd': rtd, 'rtd0': rtd, 'thermistor': thermistor, 'strain': strain, 'poly': poly, 'table': table}[case['k']](case, ctx, rng)
+
+
+def pure_call(ctx, sc, volts, label):
+    """scale() must not modify its input and must give the same answer when called again on the same array."""
+    x = np.array(volts, dtype='f8')
+    keep = x.tobytes()
+    first = np.array(sc.scale(x), dtype='f8')
+    changed = x.tobytes() != keep
+    second = np.array(sc.scale(x), dtype='f8')
+    ctx.count('purity_calls')
+    if changed or x.tobytes() != keep:
+        ctx.violation('%s/scale-modifies-its-input' % label, {'scaling': type(sc).__name__})
+    elif not np.array_equal(first, second, equal_nan=True):
+        ctx.violation('%s/second-scale-call-differs' % label, {'scaling': type(sc).__name__})
+    return first
 
 
 def within(got, want):
@@ -86,7 +101,7 @@ def rtd(case, ctx, rng):
     ctx.sample({'case': case, 'params': params, 'temps': temps[:4].tolist()}, limit=1)
     sc = S.RtdScaling(current, r0, a, b, c, lead, config, SG.RAW)
     desc = dict(kind='RTD', current=current, r0=r0, a=a, b=b, c=c, lead=lead, config=config, src=SG.RAW)
-    for label, fn in (('direct', lambda: sc.scale(volts.copy())), ('channel', lambda: through_channel(ctx, desc, volts))):
+    for label, fn in (('direct', lambda: pure_call(ctx, sc, volts, 'rtd')), ('channel', lambda: through_channel(ctx, desc, volts))):
         try:
             got = fn()
         except Exception as ex:
@@ -139,7 +154,7 @@ def thermistor(case, ctx, rng):
     ctx.sample({'case': case, 'params': params}, limit=1)
     sc = S.ThermistorScaling(exc, value, config, r1, lead, a_, b_, c_, offset, SG.RAW)
     desc = dict(kind='Thermistor', exc_type=exc, exc_value=value, config=config, r1=r1, lead=lead, a=a_, b=b_, c=c_, t_offset=offset, src=SG.RAW)
-    for label, fn in (('direct', lambda: sc.scale(volts.copy())), ('channel', lambda: through_channel(ctx, desc, volts))):
+    for label, fn in (('direct', lambda: pure_call(ctx, sc, volts, 'thermistor')), ('channel', lambda: through_channel(ctx, desc, volts))):
         try:
             got = fn()
         except Exception as ex:
@@ -196,7 +211,7 @@ def strain(case, ctx, rng):
     ctx.sample({'case': case, 'params': params}, limit=1)
     sc = S.StrainScaling(config, nu, rg, rl, vinit, gf, gain, vex, SG.RAW)
     desc = dict(kind='Strain', config=config, poisson=nu, gage_r=rg, lead=rl, v_init=vinit, gf=gf, gain=gain, v_ex=vex, src=SG.RAW)
-    for label, fn in (('direct', lambda: sc.scale(vo.copy())), ('channel', lambda: through_channel(ctx, desc, vo))):
+    for label, fn in (('direct', lambda: pure_call(ctx, sc, vo, 'strain')), ('channel', lambda: through_channel(ctx, desc, vo))):
         try:
             got = fn()
         except Exception as ex:
